@@ -11,6 +11,12 @@ only the schedule / the call history / the access order differs):
              alone first / after to_dataframe(): same value; second access: unchanged; nothing returned earlier, no base
              array and no cached plan array is modified by a later access
   isolation  analysis A, then B (one option changed), then A again in this process; B then A in a clean process
+  leak       a cached plan must not leak into other analyses: single bins requested AT THE PLAN'S OWN segment lengths (always some of
+             the bins whose scheduled starts differ from the single-bin segmentation rule), at other frequencies with those lengths and
+             at lengths not in the plan, by L= and by fres=, before any plan exists / after plan() / after compute() (any order, with
+             and without a band, four schedulers + custom callables, auto/numpy/numba backends): raw fields (D included) and every
+             derived attribute identical in all stages and identical to an analyzer that never planned; conversely plan()/compute()
+             after single-bin calls = plan()/compute() of a fresh analyzer, repeated compute() unchanged
 """
 from __future__ import annotations
 
@@ -33,7 +39,7 @@ from . import _an
 PROP = "C14"
 # obligations of the properties this one is downstream of are obligations of this check too (vk.runner.collect_obligations)
 UPSTREAM = ["C05"]
-GEN_REGIONS = ["CoreKernels", "Attrs", "ConfigGlue", "ResultQueries", "KernelHeap"]
+GEN_REGIONS = ["CoreKernels", "Attrs", "ConfigGlue", "ResultQueries", "KernelHeap", "GlobalState"]
 THEOREMS = {
     # the lazy attribute cache PROTOCOL of SpectrumResult.__getattr__ as translated each run (region ResultQueries) is the model lazyGet/lazyRun:
     # access-order independence and "cached values are returned unchanged" are theorems about the translated code
@@ -54,6 +60,9 @@ THEOREMS = {
         "ConfigGlue.gen_window_eq_spec", "ConfigGlue.kaiser_rov_range", "ConfigGlue.kaiser_alpha_ge_half", "ConfigGlue.gen_window_kaiser",
         "ConfigGlue.gen_window_explicit_olap", "ConfigGlue.gen_window_explicit_olap_ok", "ConfigGlue.gen_window_final_olap_range_partial",
         "ConfigGlue.gen_window_final_olap_negative"],
+    # no state outlives a call in the files this property is anchored in (no module/class-level containers, memoisers, mutable defaults) and the
+    # decorators are exactly the audited ones (region GlobalState, re-scanned from the current source each run)
+    "SpecKitV.Props.GlobalStateGen": ["GlobalStateGen.gen_globalState_core", "GlobalStateGen.gen_globalState_analysis", "GlobalStateGen.gen_globalState_init"],
 }
 CONTRACTS = [
     "Numba's prange executes every iteration of the loop body at least once, each as the sequential body with its own private scalars "
@@ -92,14 +101,18 @@ RULE = ("threads: (order in -1..2) x (auto|cross) analyses with many segments pe
         "backend, layouts, degenerate records) x random op sequences (length <= 12) over plan/compute/single-bin; distinct by "
         "(scheduler, order, cross, force, band, op-kind sequence); non-trivial = at least two successful ops on the shared analyzer. "
         "attrs: results from compute / single-bin / constructed edge bins x random permutations; distinct by (source, mode, bins, permutation); "
-        "non-trivial = at least two names with array values. isolation: distinct by the option that differs between A and B")
+        "non-trivial = at least two names with array values. isolation: distinct by the option that differs between A and B. "
+        "leak: (6 schedulers incl. two custom callables) x (auto|numpy|numba) x records of 2000..20000 samples x phase lists over plan/compute x band or none; "
+        "single-bin probes = the plan's own (f_j, L_j) [bins whose scheduled starts differ from round(k*(N-L)/(K-1)) first], other frequencies at plan "
+        "lengths, lengths not in the plan, by L= and fres=; distinct by (scheduler, backend, order, cross, band, differing-bin probed, phases); "
+        "non-trivial = a probe at a plan length evaluated in at least two stages")
 
 RAW = ["f", "r", "b", "L", "K", "navg", "D", "O", "XX", "YY", "XY", "S12", "S2", "M2"]
 STAT = ["XX", "YY", "XY", "M2", "S12", "S2"]
 PLAN_KEYS = ["f", "r", "b", "L", "K", "navg", "D", "O", "nf"]
 KERNELS = ["_stats_win_only_auto", "_stats_win_only_csd", "_stats_detrend0_auto", "_stats_detrend0_csd", "_stats_poly_auto", "_stats_poly_csd"]
 NO_DRIVER_ATTR = {"cf_rad_unwrapped", "cf_deg_unwrapped"}     # cross-bin attributes: not in the per-bin generated table
-CHECKS = ("threads", "kernel", "history", "attrs", "isolation")
+CHECKS = ("threads", "kernel", "history", "attrs", "isolation", "leak")
 LIBERR = (Exception, SystemExit)      # ltf_plan calls sys.exit(-1) when it produces no frequency: an error outcome like any other here
 
 
@@ -196,10 +209,48 @@ def channels(p):
     return np.ascontiguousarray(d[0]), np.ascontiguousarray(d[1])
 
 
+def _sched_floor(**kw):
+    """a user-supplied scheduler: the bins of ltf_plan, segment starts by FLOOR of k*shift (a valid plan whose starts differ from the
+    single-bin rule wherever k*shift has a fractional part >= 1/2)"""
+    from speckit import schedulers as S
+    out = S.ltf_plan(**kw)
+    N = int(kw["N"])
+    D = []
+    for L, K in zip(out["L"], out["K"]):
+        L, K = int(L), int(K)
+        D.append(np.zeros(1, dtype=np.int64) if K <= 1 else np.floor(np.arange(K) * ((N - L) / (K - 1))).astype(np.int64))
+    out["D"] = D
+    return out
+
+
+def _sched_irregular(**kw):
+    """a user-supplied scheduler: the bins of vectorized_ltf_plan with one segment more per bin (where the record allows), segment starts
+    irregular (sorted, in range, a fixed function of (N, L, K)): neither K nor D is what the single-bin rule gives for that length"""
+    from speckit import schedulers as S
+    out = S.vectorized_ltf_plan(**kw)
+    N = int(kw["N"])
+    D, Ks = [], []
+    for L, K in zip(out["L"], out["K"]):
+        L, K = int(L), int(K)
+        K = K + 1 if L < N else K
+        r = np.random.default_rng([N, L, K, 1416])
+        D.append(np.sort(r.integers(0, N - L + 1, size=K)).astype(np.int64))
+        Ks.append(K)
+    out["D"] = list(D)
+    out["K"] = np.asarray(Ks, dtype=np.int64)
+    out["navg"] = np.asarray(Ks, dtype=np.int64)
+    return out
+
+
+CUSTOM_SCHEDS = {"custom:floor": _sched_floor, "custom:irregular": _sched_irregular}
+
+
 def mk_analyzer(p: Dict[str, Any]):
     o = dict(p["opts"])
     if o.get("band") is not None:
         o["band"] = (float(o["band"][0]), float(o["band"][1]))
+    if isinstance(o.get("scheduler"), str) and o["scheduler"] in CUSTOM_SCHEDS:      # payloads are JSON: a custom callable is named by a token
+        o["scheduler"] = CUSTOM_SCHEDS[o["scheduler"]]
     return _an.analyzer(mk_data(p), float(p["fs"]), **o)
 
 
@@ -468,6 +519,231 @@ def check_history(p: Dict[str, Any]) -> Tuple[List[Dict[str, Any]], Dict[str, An
                 bad.append({"step": k, "op": op, "field": kk, "detail": "the output returned at this step was modified in place by a later call",
                             "mutated": True})
     return bad, info
+
+
+# ------------------------------------------------------------------------------------------------ (6) a cached plan must not leak
+LEAK_SKIP = {"compute_t"}          # wall-clock time of the call: not a number of the analysis
+
+
+def res_fields(res) -> Dict[str, Any]:
+    """raw fields (D included) and every derived attribute of a result: name -> ('ok', value) | ('err', exception type)"""
+    names = RAW + [n for n in attr_names(res) if n not in RAW and n not in LEAK_SKIP]
+    out: Dict[str, Any] = {}
+    with quiet():
+        for n in names:
+            try:
+                out[n] = ("ok", getattr(res, n))
+            except LIBERR as ex:
+                out[n] = ("err", type(ex).__name__)
+    return out
+
+
+def own_starts(N: int, L: int, K: int) -> np.ndarray:
+    """the single-bin segmentation rule for K segments of length L (written here independently of the library; used to SELECT bins only)"""
+    if K <= 1:
+        return np.zeros(1, dtype=np.int64)
+    return np.round(np.arange(K) * ((N - L) / (K - 1))).astype(np.int64)
+
+
+def leak_plan_info(p: Dict[str, Any]):
+    """the plan of an independent analyzer with the same options but WITHOUT a band: (plan, indices of the bins whose scheduled starts differ
+    from the single-bin rule) — the analyzer under test starts with a clean history"""
+    q = copy.deepcopy(p)
+    q["opts"].pop("band", None)
+    with quiet():
+        try:
+            pl = mk_analyzer(q).plan()
+        except LIBERR:
+            return None, []
+    N = int(p["N"])
+    differing = [j for j in range(len(pl["L"]))
+                 if not np.array_equal(np.asarray(pl["D"][j], dtype=np.int64), own_starts(N, int(pl["L"][j]), int(pl["K"][j])))]
+    return pl, differing
+
+
+def leak_probes(p: Dict[str, Any], pl, differing: List[int]) -> List[List[Any]]:
+    """single-bin requests: the plan's own (f_j, L_j) for bins with differing starts (always, when there are any) and for other bins, by L= and
+    by fres=; another frequency at a plan length; lengths that no scheduled bin uses"""
+    rng = np.random.default_rng([int(p["pseed"]), 146])
+    N, fs = int(p["N"]), float(p["fs"])
+    nf = len(pl["L"])
+    n_d, n_s, n_o = int(p.get("n_diff", 3)), int(p.get("n_same", 2)), int(p.get("n_other", 2))
+    dset = set(differing)
+    same = [j for j in range(nf) if j not in dset]
+    pick_d = [differing[i] for i in rng.permutation(len(differing))[:n_d]] if n_d >= 0 else list(differing)
+    pick_s = [same[i] for i in rng.permutation(len(same))[:n_s]]
+    probes: List[List[Any]] = []
+    for j in pick_d + pick_s:
+        f, L = float(pl["f"][j]), int(pl["L"][j])
+        probes.append(["single", f, "L", L])
+        probes.append(["single", f, "fres", fs / L])
+    for j in (pick_d[:1] + pick_s[:1]):                         # a plan length at a frequency that is not the plan's (cache keyed on L alone)
+        L = int(pl["L"][j])
+        i = int(rng.integers(0, nf))
+        f = float(pl["f"][i]) if i != j else fs * int(rng.integers(0, L // 2 + 1)) / L
+        probes.append(["single", f, "L", L])
+    used = set(int(v) for v in pl["L"])
+    lo = max(2, N // 40)
+    for _ in range(n_o):                                        # lengths not in the plan (next to a plan length, and anywhere)
+        for _try in range(20):
+            L = int(rng.integers(lo, N + 1)) if rng.random() < 0.5 else int(np.clip(int(rng.choice(list(used))) + int(rng.choice([-1, 1])), 1, N))
+            if L not in used:
+                break
+        else:
+            continue
+        probes.append(["single", fs * int(rng.integers(0, L // 2 + 1)) / L, "L" if rng.random() < 0.5 else "fres", L])
+        if probes[-1][2] == "fres":
+            probes[-1][3] = fs / L
+    return probes
+
+
+def check_leak(p: Dict[str, Any]) -> Tuple[List[Dict[str, Any]], Dict[str, Any]]:
+    """one analyzer: the probes before any plan exists, then after each of p['phases'] (plan / compute); every probe result, raw and derived,
+    equals the result of the same request on a fresh analyzer (same options) that never planned — hence all stages equal each other;
+    plan()/compute() after single-bin calls equal plan()/compute() of a fresh analyzer; repeated compute() and the cached plan unchanged;
+    nothing handed out earlier is modified later"""
+    bad: List[Dict[str, Any]] = []
+    info: Dict[str, Any] = {"ok": False, "differing": 0, "probes": 0, "at_plan_L": 0, "stages": 0, "evals": 0, "probed_differing": 0}
+    pl, differing = leak_plan_info(p)
+    if pl is None:
+        return bad, info
+    info["differing"] = len(differing)
+    probes = leak_probes(p, pl, differing)
+    info["probes"] = len(probes)
+    usedL = set(int(v) for v in pl["L"])
+    diffL = set(int(pl["L"][j]) for j in differing)
+
+    def probe_L(op):
+        return int(op[3]) if op[2] == "L" else int(round(float(p["fs"]) / float(op[3])))
+    info["at_plan_L"] = sum(1 for op in probes if probe_L(op) in usedL)
+    info["probed_differing"] = sum(1 for op in probes if probe_L(op) in diffL)
+    # reference: each request on its own new analyzer that never planned
+    ref: List[Any] = []
+    for op in probes:
+        r = fresh_op(p, op)
+        ref.append((r, res_fields(r[2]) if r[0] == "ok" else None))
+    ref_plan = fresh_op(p, ["plan"])
+    ref_comp = fresh_op(p, ["compute"]) if "compute" in p["phases"] else ("err", "not run", "")
+    ref_comp_f = res_fields(ref_comp[2]) if ref_comp[0] == "ok" else None
+    with quiet():
+        try:
+            an = mk_analyzer(p)
+        except LIBERR:
+            return bad, info
+    info["ok"] = True
+    kept: List[Any] = []
+
+    def cmp_fields(stage, op, got, want, against):
+        for n in want:
+            if n not in got or gsig(got[n]) != gsig(want[n]):
+                g = got.get(n, ("err", "missing"))
+                bad.append({"stage": stage, "op": op, "field": n,
+                            "detail": f"{against}: " + diff(want[n][1] if want[n][0] == "ok" else want[n], g[1] if g[0] == "ok" else g)})
+                if len(bad) >= 8:
+                    return
+
+    def run_probes(stage):
+        info["stages"] += 1
+        for op, (r0, f0) in zip(probes, ref):
+            if len(bad) >= 8:
+                return
+            u = run_op(an, op)
+            info["evals"] += 1
+            if u[0] != r0[0] or (u[0] == "err" and u[1] != r0[1]):
+                bad.append({"stage": stage, "op": op, "field": "raises", "detail": f"this analyzer: {u[:2] if u[0] == 'err' else 'ok'}; an analyzer that never planned: {r0[:2] if r0[0] == 'err' else 'ok'}"})
+                continue
+            if u[0] != "ok":
+                continue
+            fu = res_fields(u[2])
+            cmp_fields(stage, op, fu, f0, "on an analyzer that never planned vs here")
+            kept.append((stage, op, u[2], {n: gsig(v) for n, v in fu.items()}))
+
+    run_probes("before any plan")
+    plan_first = None
+    comp_first = None
+    for k, ph in enumerate(p["phases"]):
+        if len(bad) >= 8:
+            break
+        stage = "after " + "+".join(p["phases"][:k + 1])
+        u = run_op(an, [ph])
+        want = ref_plan if ph == "plan" else ref_comp
+        if u[0] != want[0] or (u[0] == "err" and u[1] != want[1]):
+            bad.append({"stage": stage, "op": [ph], "field": "raises", "detail": f"after single-bin calls: {u[:2] if u[0] == 'err' else 'ok'}; fresh analyzer: {want[:2] if want[0] == 'err' else 'ok'}"})
+            break
+        if u[0] != "ok":
+            break                                             # histories without failing calls
+        if ph == "plan":
+            sv = out_sigs(u)
+            for kk, s0 in out_sigs(ref_plan).items():
+                if sv[kk] != s0:
+                    bad.append({"stage": stage, "op": [ph], "field": "plan." + kk,
+                                "detail": "plan() after single-bin calls vs plan() of a fresh analyzer: " + diff(out_vals(ref_plan)[kk], out_vals(u)[kk])})
+            if plan_first is None:
+                plan_first = (u, sv)
+            elif sv != plan_first[1]:
+                bad.append({"stage": stage, "op": [ph], "field": "plan", "detail": "the cached plan is not returned unchanged"})
+        else:
+            fu = res_fields(u[2])
+            cmp_fields(stage, [ph], fu, ref_comp_f, "compute() of a fresh analyzer vs compute() after single-bin calls")
+            su = {n: gsig(v) for n, v in fu.items()}
+            if comp_first is None:
+                comp_first = su
+            elif su != comp_first:
+                n = next(n for n in su if su[n] != comp_first.get(n))
+                bad.append({"stage": stage, "op": [ph], "field": n, "detail": "repeated compute() with single-bin calls in between differs from the first"})
+            kept.append((stage, [ph], u[2], su))
+        run_probes(stage)
+    if plan_first is not None and out_sigs(plan_first[0]) != plan_first[1]:
+        bad.append({"stage": "end", "op": ["plan"], "field": "plan", "detail": "the cached plan was modified in place by a later call", "mutated": True})
+    for (stage, op, res, s0) in kept:                          # nothing handed out earlier may have been changed by a later call
+        for n in RAW:
+            if gsig(get_attr(res, n)) != s0[n]:
+                bad.append({"stage": stage, "op": op, "field": n, "detail": "the result returned at this stage was modified in place by a later call", "mutated": True})
+                break
+    return bad, info
+
+
+LEAK_SCHEDS = ["ltf", "lpsd", "vectorized_ltf", "new_ltf", "custom:floor", "custom:irregular"]
+LEAK_BACKENDS = [None, "numpy", "numba", None, "numba", None, "numba", None, None, "numba", None, "numpy"]   # NumPy kernels: 2 in 12 (slow)
+LEAK_PHASES = [["plan", "compute"], ["compute"], ["plan"], ["compute", "plan", "compute"], ["plan", "plan", "compute", "compute"]]
+
+
+def gen_leak(rng: np.random.Generator, i: int) -> Dict[str, Any]:
+    """records of 2000..20000 samples, many bins; for the schedulers with their own rounding rule the options are redrawn (a few times) until
+    some scheduled bin has starts that differ from the single-bin rule"""
+    sched = LEAK_SCHEDS[i % len(LEAK_SCHEDS)]
+    p: Dict[str, Any] = {}
+    for _try in range(5):
+        N = int(rng.choice([int(rng.integers(2000, 6000)), int(rng.integers(6000, 20001)), 20000, 8192]))
+        fs = float(rng.choice([1.0, 2.0, 100.0, float(rng.uniform(0.5, 1e3))]))
+        win = str(rng.choice(["hann", "kaiser"]))
+        o: Dict[str, Any] = {"order": int(rng.choice([-1, 0, 1, 2])), "olap": float(rng.choice([0.5, 0.75, 0.0, float(rng.uniform(0.1, 0.9))])),
+                             "Jdes": int(rng.integers(20, 100)), "Kdes": int(rng.choice([5, 10, 20, 50])), "bmin": float(rng.choice([1.0, 2.0])),
+                             "Lmin": int(rng.choice([1, 8])), "scheduler": sched, "win": win}
+        if win == "kaiser":
+            o["psll"] = float(rng.choice([60.0, 120.0, 200.0]))
+        if rng.random() < 0.12:
+            o["olap"] = "default"
+        bk = LEAK_BACKENDS[(i + i // 12) % 12]                    # rotates against the scheduler (i % 6) from one dozen cases to the next
+        if bk is not None:
+            o["backend"] = bk
+        if bk == "numpy" and N > 5000:                           # the NumPy kernels take ~10x the time of the compiled ones
+            N = int(rng.integers(2000, 5000))
+        p = {"check": "leak", "dseed": int(rng.integers(0, 2 ** 31 - 1)), "N": N, "fs": fs, "cross": bool(rng.integers(0, 2)),
+             "kind": str(rng.choice(["noise", "red", "offset", "tone"])), "kind2": "noise", "layout": str(rng.choice(["2xN", "Nx2"])),
+             "opts": o, "pseed": int(rng.integers(0, 2 ** 31 - 1)), "phases": LEAK_PHASES[int(rng.integers(0, len(LEAK_PHASES)))],
+             "n_diff": 3, "n_same": 2, "n_other": 2}
+        if bk == "numpy":                                        # ... so: fewer probes, at most one full analysis on the analyzer under test
+            p.update({"n_diff": 2, "n_same": 1, "n_other": 1, "phases": LEAK_PHASES[int(rng.integers(0, 3))]})
+            o["Jdes"] = min(int(o["Jdes"]), 40)
+        pl, differing = leak_plan_info(p)
+        if pl is not None and (differing or sched in ("vectorized_ltf", "new_ltf")):
+            break
+    if (i + i // len(LEAK_SCHEDS)) % 3 == 2 and pl is not None and len(pl["f"]) >= 3:     # a plan with a band: the cached plan holds a SUBSET of the scheduled bins
+        f = np.sort(np.asarray(pl["f"], dtype=float))
+        a, b = sorted(int(v) for v in rng.integers(0, len(f), size=2))
+        p["opts"]["band"] = [float(f[a]) * (1 - 1e-9), float(f[b]) * (1 + 1e-9)]
+    return p
 
 
 # ------------------------------------------------------------------------------------------------ (4) attribute access order
@@ -801,6 +1077,11 @@ def describe(p: Dict[str, Any], b: Dict[str, Any]) -> str:
                 + (f": {b['detail']}" if b.get("detail") else ""))
     if c == "isolation":
         return f"analyses in one process influence each other (B differs from A in {p['which']}): {b['field']}: {b['detail']}"
+    if c == "leak":
+        o = p["opts"]
+        return (f"the analyzer's call history / cached plan changes a result: {b['op']} {b['stage']} (phases {p['phases']}), field {b['field']}: {b['detail']} "
+                f"(N={p['N']} fs={p['fs']!r} {'cross' if p['cross'] else 'auto'} scheduler={o.get('scheduler')} order={o.get('order')} olap={o.get('olap')!r} "
+                f"Jdes={o.get('Jdes')} Kdes={o.get('Kdes')} win={o.get('win')} backend={o.get('backend', 'auto')} band={o.get('band')})")
     return str(b)
 
 
@@ -816,6 +1097,10 @@ def signature(p: Dict[str, Any], b: Dict[str, Any]) -> Dict[str, Any]:
         s["ref"] = bool(b.get("ref", False))
     if p["check"] == "kernel":
         s["kernel"] = p["kernel"]
+    if p["check"] == "leak":
+        s["op"] = b["op"][0]
+        s["planned"] = b["stage"] != "before any plan"
+        s["mutated"] = bool(b.get("mutated", False))
     return s
 
 
@@ -873,6 +1158,19 @@ def run_payload(P: C.Part, p: Dict[str, Any], as_corr: bool = False, child=None)
             P.hit("isolation:cross-process difference at rounding level (differently compiled kernels)", int(info["cross_process_rounding"]))
         if info.get("child"):
             P.hit("isolation:clean-process comparison")
+    elif c == "leak":
+        bad, info = check_leak(p)
+        P.cases += max(1, info["evals"])
+        o = p["opts"]
+        if info["ok"] and info["at_plan_L"] >= 1 and info["stages"] >= 2:
+            P.nontrivial.add(("leak", o.get("scheduler"), o.get("backend", "auto"), o.get("order"), p["cross"], o.get("band") is not None,
+                              info["probed_differing"] > 0, tuple(p["phases"])))
+        P.hit("leak:" + str(o.get("scheduler")) + (":band" if o.get("band") is not None else ""))
+        P.hit("leak:backend " + str(o.get("backend", "auto")))
+        P.hit("leak:probes at a plan length whose scheduled starts differ from the single-bin rule", info["probed_differing"])
+        P.hit("leak:probes at other plan lengths", info["at_plan_L"] - info["probed_differing"])
+        P.hit("leak:probes at lengths not in the plan", info["probes"] - info["at_plan_L"])
+        P.hit("leak:plans with differing bins" if info["differing"] else "leak:plans whose starts all follow the single-bin rule")
     else:
         raise ValueError(f"unknown check {c!r}")
     for b in bad[:4]:
@@ -910,6 +1208,12 @@ def corpus() -> List[Dict[str, Any]]:
             if o["scheduler"] == "vectorized_ltf":
                 c["ops"] = [["single", 0.25, "L", 200], ["plan"], ["single", 0.1, "fres", 0.01], ["compute"]]
         out.append(c)
+    # wave-7 miss C14g (single bins sharing the cached plan's starts): the configuration in which 15 of 69 scheduled bins have starts that
+    # differ from the single-bin rule, for both schedulers with accumulated half-up rounding
+    for k, (sched, phases) in enumerate([("ltf", ["compute"]), ("lpsd", ["plan", "compute"])]):
+        out.append({"check": "leak", "dseed": 1430 + k, "N": 20000, "fs": 100.0, "cross": bool(k), "kind": "red", "kind2": "noise", "layout": "2xN",
+                    "opts": {"order": 0, "Jdes": 100, "Kdes": 20, "scheduler": sched, "win": "hann"}, "pseed": 1440 + k, "phases": phases,
+                    "n_diff": 4, "n_same": 2, "n_other": 2})
     d = os.path.join(C.CORPUS_DIR, PROP)
     if os.path.isdir(d):
         for fn in sorted(os.listdir(d)):
@@ -1451,6 +1755,17 @@ def oracle(ctx, intensive: bool = False, hints: List[Dict[str, Any]] = ()) -> C.
             break
         run_payload(P, p)
         P.hit("corpus")
+
+    # 6. a cached plan must not leak into single-bin analyses (own random stream: the other streams of a seed are what they were)
+    lrng = np.random.default_rng([int(ctx.seed), 1417])
+    t_leak = time.time() + (90.0 if ctx.thorough else 8.0) * (2 if intensive else 1)
+    for i in range(ctx.scale(12, 120) * mult):
+        if out_of_time() or time.time() > t_leak:
+            break
+        p = gen_leak(lrng, i)
+        run_payload(P, p)
+        if i < 1:
+            P.sample({"op": "leak", "N": p["N"], "cross": p["cross"], "opts": p["opts"], "phases": p["phases"]})
 
     # 1. thread schedules: analyses and bare kernels
     k = 0
